@@ -332,7 +332,9 @@ def blocks(tier, seed):
     tg = [(k, s, c) for k in KINDS for s in ('receiver', 'refund', 'outsider') for c in ('right', 'wrong', 'filler')]
     lens = list(range(1, 65))
     pl = [(k, ln) for k in KINDS[:4] for ln in lens]
-    fl = [(k, f, a) for k in KINDS for f, a in (('00', '00'), ('01', '01'), ('01', '00'), ('80', '81'), ('81', '80'), ('00', 'ff'))]
+    pairs = [('00', '00'), ('01', '01'), ('01', '00'), ('80', '81'), ('81', '80'), ('00', 'ff'), ('7e', 'ff'), ('55', 'aa'), ('aa', 'aa')] + \
+        [('%02x' % (1 << b), '%02x' % (1 << b)) for b in range(1, 8)] + [('%02x' % (1 << b), '%02x' % (0xff ^ (1 << b))) for b in range(1, 8)]
+    fl = [(k, f, a) for k in KINDS for f, a in pairs]
     cr = [(k, w) for k in KINDS for w in ('htlc', 'htlc2', 'ptlc', 'ptlc_tweaked', 'ptlc_refund')]
     dw = [(k, D) for k in KINDS for D in DEADLINES]
     return [
@@ -342,7 +344,7 @@ def blocks(tier, seed):
         Block('preimage_lengths', pl, preimage_lengths, 'preimage lengths %s x right/wrong x signer; SHAKE digest sizes 1,16,20,32,64' %
               ('1..64'), nshards=min(len(pl), 128)),
         Block('ptlc_tweak_scalars', tweak_scalars(seed), ptlc_tweaks, 'tweak scalars {1, L-1, clamped, unclamped, 2^254+} x witness kinds x signers', nshards=5),
-        Block('sigflags_and_fields', fl, flags_case, 'flag/allowed pairs x covered / excluded field changes, both paths', nshards=len(fl)),
+        Block('sigflags_and_fields', fl, flags_case, 'flag/allowed pairs (every single bit permitted / alone not permitted, mixed patterns) x covered / excluded field changes, both paths', nshards=len(fl)),
         Block('cross_pairings', cr, cross_case, 'all witness kinds x all lock kinds x signers x preimage choices', nshards=len(cr)),
     ]
 
